@@ -109,6 +109,10 @@ def gen_python(rng, cls='main'):
         text += rng.choice([' ' * rng.randint(1, 12), ' ' * rng.randint(0, 12) + '# tail', '\t'])
     elif cls == 'indented-first-line':
         text = ' ' * rng.randint(1, 6) + text.lstrip(' \t\n')
+    elif cls == 'code-line-without-final-newline':
+        # the text ends in a statement (not in a blank or comment-only line), with or without a trailing comment: the last
+        # "newline" token of python.lark is then a bare comment, or there is none
+        text = text[:-1] + rng.choice(['', '', ' # c', '# c', '  #'])
     return text, feats
 
 
@@ -198,6 +202,9 @@ def classify_f_c18(text, le, lerr, ce, cerr):
     return None
 
 
+F_CLASSES = ('no-final-newline-tail', 'indented-first-line')      # the two input classes of finding F-C18-1
+
+
 def judge_python(ctx, text, feats, cls):
     le, lerr = lark_events(text)
     ce, cerr = cpython_events(text)
@@ -213,7 +220,7 @@ def judge_python(ctx, text, feats, cls):
         ctx.count('cpython-rejects-for-other-reason(not judged)')
         return
     if (lerr == 'DedentError') != (cerr == 'IndentationError'):
-        ctx.violation('DedentError-differs-from-CPython-IndentationError', case, {'lark': [le, lerr], 'cpython': [ce, cerr]}, classify_f_c18(text, le, lerr, ce, cerr) if cls != 'main' else None)
+        ctx.violation('DedentError-differs-from-CPython-IndentationError', case, {'lark': [le, lerr], 'cpython': [ce, cerr]}, classify_f_c18(text, le, lerr, ce, cerr) if cls in F_CLASSES else None)
         return
     if lerr and lerr != 'DedentError':
         ctx.violation('indenter-stream-raises-other-exception', case, {'lark': [le, lerr]})
@@ -229,7 +236,7 @@ def judge_python(ctx, text, feats, cls):
     ctx.count('contract:balanced-at-end')
     if le != ce:
         ctx.violation('INDENT/DEDENT-structure-differs-from-CPython', case, {'lark': ''.join(le), 'cpython': ''.join(ce)},
-                      classify_f_c18(text, le, lerr, ce, cerr) if cls != 'main' else None)
+                      classify_f_c18(text, le, lerr, ce, cerr) if cls in F_CLASSES else None)
 
 
 # ------------------------------------------------------------------ (b) synthetic token streams vs stack model
@@ -358,6 +365,32 @@ def judge_stream(ctx, rng):
             ctx.count('contract:balanced-at-end')
 
 
+def judge_created_first(ctx, rng):
+    """process() is called for several streams before any of them is consumed; they are then consumed one after the other.
+    Each must come out as from a fresh Indenter (the per-stream state must not be set up when process() is called and
+    used later, when the generator runs)"""
+    from lark import Token
+    tab_len = rng.choice([2, 8])
+    ind = make_indenter(tab_len)
+    streams = [gen_stream(rng) for _ in range(rng.randint(2, 3))]
+    gens = [ind.process(iter([Token(a, b) for a, b in st])) for st in streams]
+    for k, (st, g) in enumerate(zip(streams, gens)):
+        out = []
+        try:
+            for t in g:
+                out.append((t.type, str(t)))
+            got = (out, None)
+        except Exception as e:
+            got = (out, type(e).__name__)
+        exp = run_stream(make_indenter(tab_len), st)
+        ctx.judged(['created-first', tab_len, k, streams], k > 0, ['generators-created-before-consumption'])
+        ctx.count('stream-sequences-judged')
+        if got != exp:
+            ctx.violation('stream-output-depends-on-when-process()-was-called', {'kind': 'created-first', 'tab_len': tab_len, 'streams': streams, 'index': k},
+                          {'reused_indenter': got, 'fresh_indenter': exp})
+            return
+
+
 def judge_sequence(ctx, rng):
     """several streams through one Indenter object"""
     tab_len = rng.choice([2, 8])
@@ -390,7 +423,9 @@ def run_batch(ctx):
             ctx.count('stopped-on-time-budget')
             break
         cls = 'main'
-        if i % 12 == 5:
+        if i % 12 == 2:
+            cls = 'code-line-without-final-newline'
+        elif i % 12 == 5:
             cls = 'no-final-newline-tail'
         elif i % 12 == 9:
             cls = 'indented-first-line'
@@ -399,6 +434,8 @@ def run_batch(ctx):
         judge_stream(ctx, rng)
         if i % 3 == 0:
             judge_sequence(ctx, rng)
+        if i % 5 == 1:
+            judge_created_first(ctx, rng)
         if i % 100 == 0:
             ctx.sample({'python_text': text, 'class': cls, 'events': ''.join(lark_events(text)[0])})
     ctx.sample({'token_stream': gen_stream(rng)})
@@ -414,6 +451,9 @@ def replay(ctx, case):
         ctx.judged(['stream', tab_len, stream], True, [])
         if got != exp and not (got[1] == exp[1] == 'DedentError' and got[0] == exp[0]):
             ctx.violation('indenter-output-differs-from-stack-model', case, {'indenter': got, 'model': exp})
+    elif case['kind'] == 'created-first':
+        for _ in range(3000):
+            judge_created_first(ctx, ctx.rng)
     else:
         for _ in range(3000):
             judge_sequence(ctx, ctx.rng)
